@@ -267,6 +267,10 @@ def _model_time_string(s):
         # "HH:MM:SS." (empty fraction) is tolerated by the parser and unambiguous: judged like no fraction
         if frac == "":
             return "lenient", ((h * 60 + m) * 60 + sec) * 10 ** 9
+        if frac.isascii() and frac.isdigit():
+            # more digits than nanoseconds: still a well-defined number -- if it is accepted at all it must
+            # be that number cut (or rounded) to nanoseconds, not the digit string read as a nanosecond count
+            return "long", ((h * 60 + m) * 60 + sec) * 10 ** 9 + int(frac[:9])
         return "bad", None
     f = int(frac + "0" * (9 - len(frac))) if dot else 0
     return "ok", ((h * 60 + m) * 60 + sec) * 10 ** 9 + f
@@ -340,11 +344,17 @@ def interpret_time(case, ctx):
             if ctx.check(T is not None, ["C34.time.from-string", "rejected"], "Time(%r) raised ValueError" % s):
                 ctx.check(T.nanosecond_time == want, ["C34.time.from-string", "value"], "Time(%r) = %r ns, model %d" % (
                     s, T.nanosecond_time, want))
+        elif verdict == "long" and T is not None:
+            exact = set(s.partition(".")[2][9:]) <= set("0")
+            ctx.check(T.nanosecond_time == want or (not exact and T.nanosecond_time == want + 1), ["C34.time.from-string", "value", "long-fraction"],
+                      "Time(%r) = %r ns, the string denotes %d ns (cut to nanoseconds)" % (s, T.nanosecond_time, want))
         elif verdict == "lenient" and T is not None:
             ctx.check(T.nanosecond_time == want, ["C34.time.from-string", "value"], "Time(%r) = %r ns, model %d" % (
                 s, T.nanosecond_time, want))
         ctx.label("time:string", "time:string-" + verdict, "time:string-accepted" if T is not None else "time:string-rejected")
         ctx.nontrivial(verdict != "ok" or "." in s)
+        if verdict == "long":
+            ctx.label("time:string-long-fraction")
 
 
 # ----------------------------------------------------------------------------
